@@ -393,7 +393,7 @@ def notif_scenarios(rng, n, big_flood):
             ops.append("n flood %d %d" % big_flood)
         for _ in range(length):
             r = rng.random()
-            gated = [i for i, k in live.items() if k == "gated"]
+            gated = [i for i, k in live.items() if k in HELD]
             if r < 0.62 or not live:
                 seq[0] += 1
                 ops.append(pub_op(rng, seq[0])[0])
@@ -402,7 +402,7 @@ def notif_scenarios(rng, n, big_flood):
             elif r < 0.90 and not gated:
                 ops.append("n flood %d %d" % (rng.randrange(1, 20), rng.choice([1, 30, 5000])))
             elif r < 0.95 and len(live) < 5:
-                k = rng.choice(["gated", "free", "tcp"]) if gated or not stall else rng.choice(["free", "tcp"])
+                k = rng.choice(["gated", "pipe", "free", "tcp"]) if gated or not stall else rng.choice(["free", "tcp"])
                 ops.append("n sub %d %s" % (nid[0], k))
                 live[nid[0]] = k
                 nid[0] += 1
@@ -414,7 +414,7 @@ def notif_scenarios(rng, n, big_flood):
                 ops.append("n dump")
         # drain the gated subscribers, then disconnect everybody
         for i, k in sorted(live.items()):
-            if k == "gated":
+            if k in HELD:
                 ops += ["n release %d" % i] * 18
         ops.append("n dump")
         for i in sorted(live):
@@ -427,10 +427,63 @@ def notif_scenarios(rng, n, big_flood):
     scen.append(one(["gated", "free"], 0) [:2] + [pub_op(rng, 10 ** 7 + i)[0] for i in range(20)] +
                 ["n release 1"] * 20 + ["n dump", "n close 1", "n close 2"])
     scen.append(one(["free", "tcp"], 25, stall=True))
+    # the momentarily slow monitor: its connection handler sits in the write of one event to an unbuffered
+    # connection (public API only: ServeHTTP + Hijack) while k more are published, k = 1 … the capacity of the
+    # statement and beyond; then the monitor reads some, more are published, and it finally catches up.
+    # Payloads of equal and of different lengths, certificates and login events mixed.
+    for k, kinds in ((2, ["pipe"]), (3, ["pipe", "free"]), (SPEC_CAP - 1, ["pipe", "gated"]), (SPEC_CAP, ["pipe"]),
+                     (SPEC_CAP + 3, ["pipe", "tcp"])):
+        scen.append(slow_monitor(rng, seq, k, kinds))
     while len(scen) < n:
-        kinds = [rng.choice(["gated", "gated", "free", "tcp"]) for _ in range(rng.choice([1, 2, 2, 3, 4]))]
+        kinds = [rng.choice(["gated", "pipe", "pipe", "free", "tcp"]) for _ in range(rng.choice([1, 2, 2, 3, 4]))]
         scen.append(one(kinds, rng.choice([10, 30, 60, 90])))
     return scen
+
+
+HELD = ("gated", "pipe")
+SPEC_CAP = 16      # "a subscriber that keeps up": the queue of the statement (c20_nonblocking_sites ties the source to it)
+
+
+def slow_monitor(rng, seq, k, kinds):
+    ops = ["n sub %d %s" % (i + 1, kd) for i, kd in enumerate(kinds)]
+    held = [i + 1 for i, kd in enumerate(kinds) if kd in HELD]
+
+    def cert(same_len):
+        seq[0] += 1
+        body = ("cert-%07d-" % seq[0]).encode() + bytes(rng.randrange(256) for _ in range(96 if same_len else rng.choice([0, 5, 96, 300])))
+        return "n pub %s %s" % (rng.choice(["ssh", "x509"]), body.hex())
+
+    same = rng.random() < 0.5
+    ops.append(cert(same))                       # taken by every handler; the held ones now sit in their write
+    for j in range(k):
+        if rng.random() < 0.75:
+            ops.append(cert(same))
+        else:
+            seq[0] += 1
+            ops.append(pub_op(rng, seq[0])[0])
+    for _ in range(rng.randrange(1, 4)):         # the monitor reads a few, publishing goes on
+        ops.append("n release %d" % rng.choice(held))
+        ops.append(cert(same))
+    ops.append("n dump")
+    for i in held:
+        ops += ["n release %d" % i] * (k + 8)
+    ops.append("n dump")
+    for i in range(len(kinds)):
+        ops.append("n close %d" % (i + 1))
+    return ops
+
+
+def closed_fragment(ops):
+    """a replayed fragment ends at the failing subscriber's close: disconnect whoever is still connected, so that the
+    next fragment starts from an empty notifier (subscriber ids are per scenario)"""
+    live = []
+    for o in ops:
+        f = o.split()
+        if f[1] == "sub" and f[2] not in live:
+            live.append(f[2])
+        elif f[1] == "close" and f[2] in live:
+            live.remove(f[2])
+    return list(ops) + ["n close %s" % i for i in live]
 
 
 def cert_marker(raw):
@@ -471,9 +524,12 @@ def run_notifier(ctx, facts, scen, race=False):
                    ops, impl, model)
     cap = facts["c20"]["notifier_chan_cap"]
     stats = {"publishes": 0, "deliveries_judged": 0, "drops_observed": 0, "max_queue": 0, "box_failures": 0,
-             "stalled_full": 0, "subscribers": {"gated": 0, "free": 0, "tcp": 0, "stall": 0}, "kinds": {}}
+             "stalled_full": 0, "subscribers": {"gated": 0, "free": 0, "tcp": 0, "stall": 0, "pipe": 0}, "kinds": {},
+             "wire_logs_judged": 0, "wire_events": 0, "wire_logs_complete": 0, "published_while_handler_in_write": 0,
+             "max_published_during_one_write": 0}
     live = {}      # id -> dict(kind, qlen, qlens[], pubs[])
     jops, jmeta = [], []
+    wops, wmeta = [], []
     sc_start = 0
     for i, (o, l, r) in enumerate(zip(ops, impl, raw)):
         f = o.split()
@@ -482,7 +538,7 @@ def run_notifier(ctx, facts, scen, race=False):
             c.add_violation(ctx, "notifier-blocked", "publish did not return / settle within the time box at op %r: %s" % (o, l),
                             {"stream": "n", "ops": ops[sc_start:i + 1], "impl": l})
         if "#stall=" in r:
-            for tok in r.split("#stall=")[1].split(","):
+            for tok in r.split("#stall=")[1].split(" #")[0].split(","):
                 if tok.split(":")[1] == str(cap):
                     stats["stalled_full"] += 1
         if f[1] == "sub":
@@ -490,19 +546,25 @@ def run_notifier(ctx, facts, scen, race=False):
             if not live:
                 sc_start = i
             if f[3] != "stall":
-                live[int(f[2])] = {"kind": f[3], "qlen": 0, "qlens": [], "pubs": [], "flood": False}
+                live[int(f[2])] = {"kind": f[3], "qlen": 0, "qlens": [], "pubs": [], "flood": False, "calls": [],
+                                   "taken": 0, "parked": 0}
         elif f[1] == "pub":
             stats["publishes"] += 1
             stats["kinds"][f[2]] = stats["kinds"].get(f[2], 0) + 1
             for s in live.values():
                 s["qlens"].append(s["qlen"])
                 s["pubs"].append(op_marker(o))
+                s["calls"].append(":".join(f[2:]))
+                if s["kind"] in HELD and s["taken"] > 0 and s["parked"] >= 0:
+                    s["parked"] += 1          # published while this subscriber's handler sits in a write
+                    stats["published_while_handler_in_write"] += 1
+                    stats["max_published_during_one_write"] = max(stats["max_published_during_one_write"], s["parked"])
         elif f[1] == "flood":
             stats["publishes"] += int(f[2])
             for s in live.values():
                 s["qlens"] += [0] * int(f[2])
                 s["pubs"] += ["flood"] * int(f[2])
-                if s["kind"] == "gated":
+                if s["kind"] in HELD:
                     s["flood"] = True
         elif f[1] == "close" and l.startswith("closed ") and "=" in l.split()[1]:
             sid = int(f[2])
@@ -515,11 +577,23 @@ def run_notifier(ctx, facts, scen, race=False):
                     jops.append("deliv %d %s %s %s" % (cap, ",".join(map(str, s["qlens"])) or "-", "|".join(s["pubs"]) or "-", "|".join(hm) or "-"))
                     jmeta.append((sid, i, sc_start))
                     stats["drops_observed"] += sum(1 for q in s["qlens"] if q >= cap)
-        # update queue lengths from the status tokens
+            if s and not s["flood"] and " #wire=" in r:
+                # what the slow monitor itself decoded from the bytes it read, against the Publish* calls (every byte)
+                wire = r.split(" #wire=")[1].split(" #")[0]
+                nw = 0 if wire == "-" else len(wire.split("|"))
+                complete = s["qlen"] == 0 and nw >= s["taken"]
+                wops.append("wire %d %s %s %d %s" % (cap if cap > 0 else SPEC_CAP, ",".join(map(str, s["qlens"])) or "-", "|".join(s["calls"]) or "-",
+                                                     1 if complete else 0, wire))
+                wmeta.append((sid, i, sc_start, nw))
+                stats["wire_events"] += nw
+                stats["wire_logs_complete"] += 1 if complete else 0
+        if f[1] == "release" and int(f[2]) in live:
+            live[int(f[2])]["parked"] = 0        # update queue lengths from the status tokens
         for tok in l.split():
             p = tok.split(":")
             if len(p) == 3 and p[0].isdigit() and int(p[0]) in live:
                 live[int(p[0])]["qlen"] = int(p[1])
+                live[int(p[0])]["taken"] = int(p[2]) if p[2].isdigit() else 0
                 stats["max_queue"] = max(stats["max_queue"], int(p[1]))
     verdicts = c.run_driver(ctx, "judge", jops) if jops else []
     for (sid, i, s0), v, j in zip(jmeta, verdicts, jops):
@@ -527,6 +601,20 @@ def run_notifier(ctx, facts, scen, race=False):
         if v != "ok":
             c.add_violation(ctx, "notifier-delivery", "subscriber %d did not receive the published sequence: %s" % (sid, v),
                             {"stream": "n", "ops": ops[s0:i + 1], "judge_op": j, "judge": v})
+    verdicts = c.run_driver(ctx, "judge", wops) if wops else []
+    for (sid, i, s0, nw), v, j in zip(wmeta, verdicts, wops):
+        stats["wire_logs_judged"] += 1
+        if v != "ok":
+            what = "monitor %d (slow reader on an unbuffered connection) did not read what was published: %s" % (sid, v)
+            if v.startswith("viol content at="):
+                k = int(v.split("=")[1])
+                jf = j.split()
+                got = jf[5].split("|")
+                due = [cl for cl, q in zip(jf[3].split("|"), jf[2].split(",")) if int(q) < int(jf[1])]
+                what += "; message %d on its connection decodes to %s where Publish %s was due" % (
+                    k + 1, got[k][:90] if k < len(got) else "nothing", due[k][:70] if k < len(due) else "nothing")
+            c.add_violation(ctx, "notifier-wire-" + v.replace("viol ", "").split("=")[0].split()[0], what,
+                            {"stream": "n", "ops": ops[s0:i + 1], "judge_op": j if len(j) < 6000 else j[:6000] + "…", "judge": v})
     return stats
 
 
@@ -646,7 +734,7 @@ def run(ctx):
             if r.get("stream") in by and r.get("ops"):
                 by[r["stream"]].append(r["ops"])
         rstats = run_recorder(ctx, facts, by["r"] or rec_scenarios(ctx.rng, 1, retention))
-        nstats = run_notifier(ctx, facts, by["n"]) if by["n"] else {}
+        nstats = run_notifier(ctx, facts, [closed_fragment(x) for x in by["n"]]) if by["n"] else {}
         istats = run_issuing(ctx, [o for s in by["i"] for o in s]) if by["i"] else {}
         for gops in by["g"][:3]:
             nf = len([o for o in gops if o.startswith("r scaleflag")])
